@@ -5,6 +5,28 @@ COMMON_NOTE = ("Trusted base: Lean 4.33 kernel; axioms ⊆ {propext, Classical.c
                "generated tables (harness/gen_tables.py). ")
 
 CLAIMED = {
+    "C11": {
+        "text": "Theorems (Lean): schema_arg_sound — an accepted schema argument IS the table's schema, field by field, ids and order "
+                "included (sig_injective); append_keeps_scans — after ANY history of appends, accepted or rejected, with arbitrary schema "
+                "arguments and batches (induction over the history), every data file has the table's column layout and its column bounds "
+                "under the table's field ids, so full scans concatenate and pruning is sound; append_exact — an accepted append adds exactly "
+                "the supplied records (absent optional columns as None); append_validated / append_values_exact — every record of an accepted "
+                "batch names only schema fields, has every required field non-None and only accepted values; append_reject_frame — a rejected "
+                "append has a reason and no resulting state; guard_covers_lossy — for EVERY value (all attribute combinations) anything pyarrow "
+                "would alter silently is refused by the validator; grid_lossy_spec / coerce_faithful — on the measured grid (11 column types × "
+                "93 value classes) pyarrow alters a value exactly where the specification says and every accepted pair converts exactly; "
+                "old_accepts_reordered / old_accepts_renumbered / old_history_breaks_scan / old_fits_lossy — machine-checked witnesses of the "
+                "five defects found and repaired (2f24707, 8fbd14f). Tie: ap.fits / ap.arrow / ap.guard / ap.schema / ap.batch — the validator, "
+                "pyarrow's conversion (re-measured each run on the installed pyarrow), schema-argument acceptance and batch acceptance of the "
+                "real library vs the model on the whole grid. Oracle: whole grid × optional/required, 10 schema-argument variants × fresh / "
+                "reused handle × schema id, 8 record shapes in two-record batches; accepted → read back exactly through same and fresh "
+                "handle incl. per-column filtered scans; rejected → snapshots, rows and reachable files unchanged.",
+        "design_ref": "§6 C11",
+        "note": "Values are abstracted to value classes; what 'exactly as supplied up to the declared type's representation' means per type is "
+                "the harness function represents() (tz-aware datetimes keep their instant; bytes↔str, int→float when exactly representable). "
+                "pyarrow's conversion is a measured table, re-measured on every run.",
+        "technique": "Lean 4 theorems (induction over append histories; attribute-level lemma; whole-grid decision tables) + exhaustive grid correspondence and read-back oracle",
+    },
     "C14": {
         "text": "Theorems (Lean; the quantifier file kind × damage class × touched × checksum option is finite, proved over the whole table): "
                 "damaged_touched_raises — a missing / unparseable / transiently failing manifest list, manifest or data file, or an unparseable "
